@@ -67,6 +67,9 @@ Uris(it) == [j \in 1..it.nu |-> it.id * 10 + j]
 
 NoLoss == [pg |-> 0, pos |-> 0]
 LossAt(E, pg, pos) == E.loss.pg = pg /\ E.loss.pos = pos
+\* loss.how = "silent" (C12): instead of losing the connection the server just stops sending at that point, and the search was
+\* given a timeout - the wait ends with a timeout error, the connection and the receiver stay as they are
+Silent(E) == "how" \in DOMAIN E.loss /\ E.loss.how = "silent"
 
 ---------------------------------------------------------------------------
 \* stream record: sstate, stored result, receiver open, server position, adapter state, requests the server has received
@@ -89,7 +92,8 @@ Start(E) ==
 \* innermost receive
 Inner(E, s) ==
   IF ~s.rx THEN [x |-> Panic, s |-> s]
-  ELSE IF LossAt(E, s.pg, s.pos) THEN [x |-> Err("fail"), s |-> [s EXCEPT !.rx = FALSE]]
+  ELSE IF LossAt(E, s.pg, s.pos) THEN (IF Silent(E) THEN [x |-> Err("timeout"), s |-> s]
+                                       ELSE [x |-> Err("fail"), s |-> [s EXCEPT !.rx = FALSE]])
   ELSE LET p == PageAt(E, s.pg) IN
        IF s.pos <= Len(p.items)
          THEN [x |-> Some(p.items[s.pos]), s |-> [s EXCEPT !.pos = @ + 1]]
@@ -274,6 +278,11 @@ StateLaw ==
           [] calls[n] = "drain"  ->
                IF pre # "Active" THEN o.x.got = <<>> /\ o.x.x = None /\ o.st = pre /\ o.nreq = outs[n-1].nreq
                ELSE o.st = (CASE o.x.x.k = "none" -> "Done" [] o.x.x.k = "err" -> "Error")
+
+\* C12 on every adapter chain: a wait on a silent server ends with a timeout error - and only such a wait does
+ErrOf(n) == IF calls[n] = "drain" THEN outs[n].x.x ELSE outs[n].x
+TimeoutLaw ==
+  HaveStream => \A n \in 2..Len(calls) : FailSeen(n) => ((ErrOf(n).e = "timeout") <=> Silent(E_))
 
 \* C16: the requests the server received
 PagingLaw ==
